@@ -125,6 +125,11 @@ type Dir struct {
 	Shuffle []int
 }
 
+// SlotJunk, when non-zero, fills the bytes of a 4-byte value slot that an embedded value shorter
+// than 4 bytes leaves unused (TIFF 6.0 leaves them unspecified; readers must not look at them).
+// It is set by GenExif around its Encode calls only.
+var SlotJunk byte
+
 // Site is an addressable place in the encoded file (for structure-aware malformation).
 type Site struct {
 	Name string `json:"name"`
@@ -158,6 +163,7 @@ type Encoded struct {
 	MaxEntries  int
 	BlockOrder  string
 	ValueBlocks int
+	Tail        int // number of trailing bytes appended after the last block
 }
 
 func entrySize(e *Entry) int {
@@ -280,7 +286,7 @@ func Encode(root *Dir, firstIFD int, pick func(isTable []bool) int, pad func() i
 					default:
 						typ, cnt = e.V.Type, e.V.Count()
 						if entrySize(e) <= 4 {
-							inline = make([]byte, 4)
+							inline = []byte{SlotJunk, SlotJunk, SlotJunk, SlotJunk}
 							copy(inline, e.V.Bytes(mm))
 						}
 					}
@@ -325,6 +331,7 @@ func Encode(root *Dir, firstIFD int, pick func(isTable []bool) int, pad func() i
 		}
 	}
 	// simulate the streaming reader's pending list to get its high-water mark
+	enc.Tail = len(trailing)
 	enc.PendingHW, enc.MaxEntries = simulatePending(root, tableOff, valueOff)
 	for _, b := range blocks {
 		if b.entry != nil {
